@@ -14,6 +14,8 @@ pub enum K {
     T(String),
     /// token-valued text (URIs, numbers, enumeration values): may be padded with whitespace
     Tok(String),
+    /// verbatim markup (an opaque payload that no rewrite touches)
+    Raw(String),
 }
 
 #[derive(Clone, Debug, PartialEq, Eq)]
@@ -47,6 +49,10 @@ impl E {
     }
     pub fn tok(mut self, t: &str) -> Self {
         self.kids.push(K::Tok(t.to_string()));
+        self
+    }
+    pub fn raw(mut self, t: &str) -> Self {
+        self.kids.push(K::Raw(t.to_string()));
         self
     }
     pub fn push(&mut self, e: E) {
@@ -218,6 +224,7 @@ impl<'a> Ser<'a> {
             match k {
                 K::E(c) => self.elem(c, &default_ns, prefixes, out),
                 K::T(t) => out.push_str(&esc_text(t)),
+                K::Raw(t) => out.push_str(t),
                 K::Tok(t) => {
                     if self.site(Rw::WsToken, &e.name) {
                         out.push_str("\n    ");
@@ -332,7 +339,7 @@ impl RpcErr {
         if !self.info.is_empty() {
             let mut i = E::new(NS, "error-info");
             for (k, v) in &self.info {
-                i.push(E::new(NS, k).tok(v));
+                i.push(if k == "session-id" { E::new(NS, k).tok(v) } else { E::new(NS, k).text(v) });
             }
             e.push(i);
         }
